@@ -24,7 +24,8 @@
 EXTENDS Integers, Sequences, FiniteSets, TLC, Json
 
 CONSTANT Stratum    \* "all": every data history; "never": only scenarios whose metric never had a sample (P2 stratum);
-                    \* "now": only scenarios whose selector returns series now (P1 stratum)
+                    \* "now": only scenarios whose selector returns series now (P1 stratum);
+                    \* "queued": the series appears while the probe is queued (history "appearing", nowhere else)
 
 Cells == -3..15
 InWin == -1..15              \* cells that reach into the lookback window
@@ -32,7 +33,7 @@ NowCell == 15                \* the cell containing now
 Step == 5                    \* lookbackStep, minutes
 Lookback == 480              \* lookbackRange, minutes
 
-HistNames == {"never", "always", "gone_long", "gone_mid", "gone_recent", "flap_now", "flap_gone", "new_recent", "new_long"}
+HistNames == {"never", "always", "gone_long", "gone_mid", "gone_recent", "flap_now", "flap_gone", "new_recent", "new_long", "appearing"}
 Hist(h) == CASE h = "never"       -> {}
              [] h = "always"      -> Cells
              [] h = "gone_long"   -> -3..6      \* last seen about 4h20m ago
@@ -42,6 +43,8 @@ Hist(h) == CASE h = "never"       -> {}
              [] h = "flap_gone"   -> (-3..3) \cup (6..9)
              [] h = "new_recent"  -> 13..15
              [] h = "new_long"    -> 4..15
+             [] h = "appearing"   -> {15}       \* the first sample is written while the check's first probe waits in the
+                                                \* client's queue (one worker, busy with a slow query): Stratum "queued" only
 UpNames == {"always", "gap", "none"}
 \* "gap": the uptime metric exists exactly where the history flap_gone has samples, so that a series with that history
 \* has NO gap that Prometheus' own uptime does not explain (FindGaps only counts points covered by the uptime ranges)
@@ -60,7 +63,8 @@ Exempts == {"none", "disable", "disable_other", "snooze", "snooze_expired", "ign
 \* switched off by a selector-scoped comment, which must not silence the selector under test.
 \* `sum(sel) / (sum(zf) or vector(1)) > 0`: the OTHER operand has a vector() fallback (documented: that operand is
 \* not checked), the selector under test has none and must still be checked.
-Wraps == {"cmp", "sum", "rate", "mul_first", "mul_second", "same_second", "div_fallback"}
+\* `histogram_fraction(0, 1024, rate(sel[5m])) > 0`: the vector is the THIRD argument of the call.
+Wraps == {"cmp", "sum", "rate", "mul_first", "mul_second", "same_second", "div_fallback", "hfrac"}
 
 Scenario == [shape : Shapes, ha : HistNames, hb : HistNames, up : UpNames, rules : RuleSets, exempt : Exempts, wrap : Wraps]
 
@@ -233,14 +237,19 @@ vars == <<sc, pc, out>>
 \* recording rules and vice versa are harmless and kept
 Init == /\ sc \in [shape : Shapes, ha : {"never"}, hb : {"never"}, up : {"always"}, rules : {"none"}, exempt : {"none"}, wrap : Wraps]
         /\ pc = "data" /\ out = [probes |-> << >>, problems |-> {}]
+Regular == HistNames \ {"appearing"}
 ChooseData ==  /\ pc = "data"
-               /\ \E a \in (IF Stratum = "never" THEN {"never"} ELSE HistNames),
-                     b \in (IF Stratum = "never" THEN {"never"} ELSE HistNames), u \in UpNames :
+               /\ \E a \in (CASE Stratum = "never" -> {"never"} [] Stratum = "queued" -> {"appearing"} [] OTHER -> Regular),
+                     b \in (IF Stratum \in {"never", "queued"} THEN {"never"} ELSE Regular),
+                     u \in (IF Stratum = "queued" THEN {"always"} ELSE UpNames) :
                        /\ sc' = [sc EXCEPT !.ha = a, !.hb = b, !.up = u]
                        /\ Stratum = "now" => NowCell \in SelCells(sc')
+                       /\ Stratum = "queued" => sc.shape \in {"bare", "eq", "nm", "re"}
                /\ pc' = "rules" /\ UNCHANGED out
 ChooseRules == /\ pc = "rules"
-               /\ \E r \in RuleSets, e \in Exempts : sc' = [sc EXCEPT !.rules = r, !.exempt = e]
+               /\ \E r \in (IF Stratum = "queued" THEN {"none"} ELSE RuleSets),
+                     e \in (IF Stratum = "queued" THEN {"none", "ignore_other", "snooze_expired"} ELSE Exempts) :
+                       sc' = [sc EXCEPT !.rules = r, !.exempt = e]
                /\ pc' = "eval" /\ UNCHANGED out
 Eval ==        /\ pc = "eval" /\ out' = Verdict(sc) /\ pc' = "done" /\ UNCHANGED sc
 Next == ChooseData \/ ChooseRules \/ Eval
